@@ -12,7 +12,7 @@ EXTENDS Naturals, Integers, Sequences, FiniteSets, TLC
 CONSTANTS L, G, Variant, MaxSteps
 Huge == 1000000
 NoQuota == -1          \* no quota applied yet (quotas are never negative once applied)
-Replies == {-300, -1, 0, 1, L, L + 1, G, G + 1, 25 * G}
+Replies == {-300, -1, 0, 1, L, L + 1, G, G + 1, 25 * G, 2147483647, -2147483647}        \* (int32 extremes: conversions to uint32 / float)
 VARIABLES ready, quota, hist
 vars == <<ready, quota, hist>>
 Clamp(q) == IF q < 0 THEN 0 ELSE IF q > G THEN G ELSE q
